@@ -388,7 +388,7 @@ impl Check for NftEnumerable {
             };
             let exp = m.apply(s);
             if kind != "advance" {
-                st.hit(if got { "tx.ok" } else { "tx.refused" });
+                st.tx(kind, got);
             }
             if got != exp {
                 let check = match (got, kind) {
